@@ -540,20 +540,21 @@ def check_case(case, ctx):
     # played; later candidates count as "not failing" (Hypothesis then stops shrinking) and a candidate
     # seen before gets its recorded verdict, so the final replay of the minimal example is stable.
     memo = ctx.__dict__.setdefault('_c17_shrink', {'failed': False, 'left': SHRINK_RUNS, 'seen': {}})
-    key = None
-    if memo['failed']:
-        key = case_hash(case)
-        if key in memo['seen']:
-            raise Violation(*memo['seen'][key])
-        if memo['left'] <= 0:
-            raise Discard()
-        memo['left'] -= 1
-    try:
-        _check_case(case, ctx)
-    except Violation as v:
-        memo['failed'] = True
-        memo['seen'][key or case_hash(case)] = (v.clause, v.detail)
-        raise
+    key = case_hash(case)
+    verdict = memo['seen'].get(key)
+    if verdict is None:
+        if memo['failed']:
+            if memo['left'] <= 0:
+                raise Discard()
+            memo['left'] -= 1
+        try:
+            _check_case(case, ctx)
+            return
+        except Violation as v:
+            verdict = memo['seen'][key] = (v.clause, v.detail)
+            memo['failed'] = True
+    # one raise site for first-hand and remembered verdicts: Hypothesis identifies a failure by where it was raised
+    raise Violation(*verdict)
 
 
 def _check_case(case, ctx):
